@@ -196,6 +196,10 @@ def word_forms(rep, mode, w):
     forms = []
     lst = [mode.name(l) for l in w]
     st = "*".join(lst)
+    if len(lst) >= 2:
+        # '(' and ')' are reserved for grouping in the '*'-joined syntax
+        par = "(" + "*".join(lst[:2]) + ")" + "".join("*" + g for g in lst[2:])
+        forms.append(("rep.element(%r, parse_simple=False)" % par, lambda: rep.element(par, parse_simple=False)))
     if mode.parse is False:
         # a representation constructed with parse_simple=False reads 'g1*g2*...'
         forms.append(("rep[%r]" % st, lambda: rep[st]))
